@@ -2949,6 +2949,37 @@ impl Interpreter {
         &mut self,
         gen_state: &Rc<RefCell<BytecodeGeneratorState>>,
     ) -> Result<Guarded, JsError> {
+        // Block scopes the generator is suspended in: every scope it leaves after resumption
+        // pops one guard from the interpreter's stack, so each gets one again (guarding the
+        // environment that scope created); whatever the generator leaves behind when it
+        // yields or completes inside nested blocks is released afterwards - a suspended
+        // generator keeps its environments alive itself
+        let env_guard_depth = self.env_guards.len();
+        {
+            let state = gen_state.borrow();
+            if state.started && state.status != GeneratorStatus::Completed {
+                for i in 0..state.saved_env_stack.len() {
+                    let guard = self.heap.create_guard();
+                    if let Some(env) = state
+                        .saved_env_stack
+                        .get(i + 1)
+                        .or(state.current_env.as_ref())
+                    {
+                        guard.guard(env.cheap_clone());
+                    }
+                    self.env_guards.push(guard);
+                }
+            }
+        }
+        let result = self.resume_bytecode_generator_inner(gen_state);
+        self.env_guards.truncate(env_guard_depth);
+        result
+    }
+
+    fn resume_bytecode_generator_inner(
+        &mut self,
+        gen_state: &Rc<RefCell<BytecodeGeneratorState>>,
+    ) -> Result<Guarded, JsError> {
         use bytecode_vm::{BytecodeVM, VmResult};
 
         // Check if generator is already completed
@@ -2971,6 +3002,9 @@ impl Interpreter {
             saved_registers,
             saved_call_stack,
             saved_try_stack,
+            saved_env_stack,
+            saved_exception,
+            saved_completion,
             chunk,
             yield_result_register,
             closure,
@@ -2987,6 +3021,9 @@ impl Interpreter {
                 state.saved_registers.clone(),
                 state.saved_call_stack.clone(),
                 state.saved_try_stack.clone(),
+                state.saved_env_stack.clone(),
+                state.saved_exception.clone(),
+                state.saved_completion.clone(),
                 state.chunk.clone(),
                 state.yield_result_register,
                 state.closure.clone(),
@@ -3080,6 +3117,9 @@ impl Interpreter {
                         state.saved_registers = yield_result.state.registers;
                         state.saved_call_stack = yield_result.state.frames;
                         state.saved_try_stack = yield_result.state.try_stack;
+                        state.saved_env_stack = yield_result.state.saved_env_stack;
+                        state.saved_exception = yield_result.state.exception_value;
+                        state.saved_completion = yield_result.state.pending_completion;
                         state.yield_result_register = Some(yield_result.resume_register);
                         // Save current environment (may include block scopes)
                         state.current_env = Some(self.env.cheap_clone());
@@ -3100,6 +3140,9 @@ impl Interpreter {
                         state.saved_registers = yield_star_result.state.registers;
                         state.saved_call_stack = yield_star_result.state.frames;
                         state.saved_try_stack = yield_star_result.state.try_stack;
+                        state.saved_env_stack = yield_star_result.state.saved_env_stack;
+                        state.saved_exception = yield_star_result.state.exception_value;
+                        state.saved_completion = yield_star_result.state.pending_completion;
                         state.yield_result_register = Some(yield_star_result.resume_register);
                         // Save current environment (may include block scopes)
                         state.current_env = Some(self.env.cheap_clone());
@@ -3137,6 +3180,21 @@ impl Interpreter {
                 }
             }
 
+            // Guard the saved block scopes, the exception being handled and the pending completion
+            for env in &saved_env_stack {
+                state_guard.guard(env.cheap_clone());
+            }
+            if let Some(JsValue::Object(obj)) = &saved_exception {
+                state_guard.guard(obj.cheap_clone());
+            }
+            if let Some(
+                bytecode_vm::SavedCompletion::Return(JsValue::Object(obj))
+                | bytecode_vm::SavedCompletion::Throw(JsValue::Object(obj)),
+            ) = &saved_completion
+            {
+                state_guard.guard(obj.cheap_clone());
+            }
+
             // Guard saved environments in call frames
             for frame in &saved_call_stack {
                 if let Some(ref env) = frame.saved_env {
@@ -3155,9 +3213,9 @@ impl Interpreter {
                 new_target: JsValue::Undefined,
                 trampoline_stack: Vec::new(), // Generators run at top level
                 saved_this: None,             // supplied explicitly below
-                saved_env_stack: Vec::new(),
-                exception_value: None,
-                pending_completion: None,
+                saved_env_stack,
+                exception_value: saved_exception,
+                pending_completion: saved_completion,
                 current_constructor: None,
             };
 
@@ -3209,6 +3267,9 @@ impl Interpreter {
                         state.saved_registers = yield_result.state.registers;
                         state.saved_call_stack = yield_result.state.frames;
                         state.saved_try_stack = yield_result.state.try_stack;
+                        state.saved_env_stack = yield_result.state.saved_env_stack;
+                        state.saved_exception = yield_result.state.exception_value;
+                        state.saved_completion = yield_result.state.pending_completion;
                         state.yield_result_register = Some(yield_result.resume_register);
                         // Save current environment (may include block scopes)
                         state.current_env = Some(self.env.cheap_clone());
@@ -3228,6 +3289,9 @@ impl Interpreter {
                         state.saved_registers = yield_star_result.state.registers;
                         state.saved_call_stack = yield_star_result.state.frames;
                         state.saved_try_stack = yield_star_result.state.try_stack;
+                        state.saved_env_stack = yield_star_result.state.saved_env_stack;
+                        state.saved_exception = yield_star_result.state.exception_value;
+                        state.saved_completion = yield_star_result.state.pending_completion;
                         state.yield_result_register = Some(yield_star_result.resume_register);
                         // Save current environment (may include block scopes)
                         state.current_env = Some(self.env.cheap_clone());
@@ -4431,6 +4495,9 @@ impl Interpreter {
             saved_registers: Vec::new(),
             saved_call_stack: Vec::new(),
             saved_try_stack: Vec::new(),
+            saved_env_stack: Vec::new(),
+            saved_exception: None,
+            saved_completion: None,
             yield_result_register: None,
             func_env: None,           // Will be created on first call to next()
             current_env: None,        // Will be saved at each yield point
@@ -4475,6 +4542,9 @@ impl Interpreter {
             saved_registers: Vec::new(),
             saved_call_stack: Vec::new(),
             saved_try_stack: Vec::new(),
+            saved_env_stack: Vec::new(),
+            saved_exception: None,
+            saved_completion: None,
             yield_result_register: None,
             func_env: None,           // Will be created on first call to next()
             current_env: None,        // Will be saved at each yield point
